@@ -365,6 +365,22 @@ def run(ctx, broken):
                     p.op(raw(q, None, [p.ref(x) for x in ws])); p.op(raw([0] * 11, None, [p.ref(x) for x in nx]))
                     p.unsat()
                     cs.append(p.case())
+    # SYSTEMATIC range rows: exactly ONE of the four quad differences (c-4d, b-4c, a-4b, d_next-4a) out of {0..3} (4, 5, 7, -1),
+    # the other three in range; selector values 1, -1, other
+    for kq in range(4):
+        for badv in (4, 5, 7, R - 1):
+            for qsel in (1, R - 1, 5):
+                qs = [rng.below(4) for _ in range(4)]
+                qs[kq] = badv
+                d_ = rng.fe() % 1000
+                c_ = (4 * d_ + qs[0]) % R; b_ = (4 * c_ + qs[1]) % R; a_ = (4 * b_ + qs[2]) % R; dn_ = (4 * a_ + qs[3]) % R
+                p = Prog(); p.tags = ["raw-range-systematic", "violate"]
+                q = [0] * 11; q[7] = qsel
+                ws = [p.w(x) for x in (a_, b_, c_, d_)]
+                nx = [p.w(rng.fe()), p.w(rng.fe()), p.w(rng.fe()), p.w(dn_)]
+                p.op(raw(q, None, [p.ref(x) for x in ws])); p.op(raw([0] * 11, None, [p.ref(x) for x in nx]))
+                p.unsat()
+                cs.append(p.case())
     r.run(cs)
     # ---- selected row on the last row of a full domain (wrap-around to row 0) and size boundaries
     pre = []
